@@ -139,6 +139,17 @@ F = [
   "Exp reported Overflow for arguments a hair above a multiple of 23 (the working precision was derived from |x| rounded to a float64): Exp(3611.0000000000000000001) P=41 Emax=100000 returned Infinity",
   {"C12": [ar("exp", ctx(41, 100000, -100000, "down"), dec("36110000000000000000001", -19)), ar("exp", ctx(41, 100000, -100000, "down"), dec("98900000000000004", -14)),
            ar("exp", ctx(5, 1000, -1000, "half_even"), dec("11500000000000000000001", -20))]}),
+ ("D42", "Pow sizes its working precision by the length of the exponent",
+  "Pow allowed for an exponent of at most 6 digits when sizing the working precision of its integer power, so long integer exponents gave results several units off: Pow(1.0000000000001, -99999999999) at Precision 41 was 4.9 ulp from the true value (found when a generator class for a seeded mutant of the same constant was added)",
+  {"C12": [ar("pow", ctx(41, 1000, -1000, "down"), dec("10000000000001", -13), dec("99999999999", 0, True)),
+           ar("pow", ctx(21, 1000, -1000, "down"), dec("10000000000049", -13), dec("99999999999", 0))]}),
+ ("D41", "the parser applies the exponent limits to the value's exponent, not to its parts",
+  "strings with more than 100000 fraction digits were rejected as out of range although their exponent and adjusted exponent are inside the limits: \".333...3E2\" with 100002 fraction digits (exponent -100000, adjusted exponent 1); first remarked by a seeding sub-agent, then found by C14's new huge-mantissa class",
+  {"C14": [{"kind": "parse", "x": Z, "s": "." + "3" * 100002 + "E2", "src": "grammar", "verb": "", "flags": "", "width": 0}]}),
+ ("D40", "Context.Neg returns -0 for +0 when rounding toward negative infinity",
+  "Context.Neg(+0) returned +0 under RoundFloor; the specification's minus is 0 - x, whose exact zero result is -0 in that mode (found by the differential comparison with Python's decimal module; my own tables had left this cell unasserted)",
+  {"C08": [{"op": "neg", "ctx": ctx(1, 1, 0, "floor"), "x": dec(0), "y": Z, "cx": "+0", "cy": ""}],
+   "C01": [ar("neg", ctx(5, 99, -99, "floor"), dec(0, 3))]}),
  ("D39", "Pow leaves NaN in the destination when the fractional power fails",
   "a Pow call that failed inside its fractional part (here through the open finding D25: ln(9E100000)*0.9 = 207234 is beyond Exp) left x**integ(y) in a distinct destination but left the destination untouched when it was also the operand: Pow(d, 9E+100000, 0.9) with d==x",
   {"C05": [{"op": "pow", "ctx": ctx(1, 100000, 0, "down"), "x": dec(9, 100000), "y": dec(9, -1), "pattern": "d=x", "which": 0}]}),
